@@ -208,6 +208,10 @@ func (p *Program) verifyFuncPass(con *Contract, prev *VC) (res *funcResult) {
 	for _, cl := range con.clauses("requires") {
 		vc.assume(env.evalBool(cl.Expr))
 	}
+	for _, cl := range con.clauses("trusted_requires") {
+		vc.assume(env.evalBool(cl.Expr))
+		vc.note("data-structure invariant assumed, not checked at call sites: " + con.FuncName + ": " + clauseLabel(cl))
+	}
 	fr.setupLock(con, env)
 	vc.rootFrame = fr
 	canary := vc.oblige("canary", con.FuncName+"/canary[false after preconditions must fail]", "true", "false", "")
@@ -348,7 +352,7 @@ func (p *Program) verifyFuncPass(con *Contract, prev *VC) (res *funcResult) {
 // (for references allocated before the call).
 func (fr *frame) frameObligations(con *Contract, penv *SpecEnv, gRet string, memRet Mem) {
 	vc := fr.vc
-	if len(con.clauses("noframe")) > 0 {
+	if len(con.clauses("noframe")) > 0 || (len(con.clauses("modifies")) == 0 && len(con.clauses("may_reject")) > 0) {
 		return
 	}
 	oenv := penv.withMem(fr.entry)
